@@ -3,15 +3,15 @@ CONSTANTS
   AckMode = "shaped"
   ThrMode = "fixed"
   EmptyMode = "fixed"
-  CfgSet <- CoreCfgs
+  CfgSet <- OpenCfgs
   SameCfg = FALSE
-  Openers = {"A"}
+  Openers = {"A", "B"}
   MaxOpens = 1
-  Ids = {1}
+  Ids = {1, 2}
   Hosts = {"h0"}
-  MaxWrites = 3
-  Lens = {1, 2}
-  ReadMax = {1, 4}
+  MaxWrites = 0
+  Lens = {1}
+  ReadMax = {4}
   Closers = {}
   MuxDroppers = {}
   DgSenders = {}
@@ -21,8 +21,8 @@ CONSTANTS
   Faults = {}
   AdvMsgs = {}
   MaxAdv = 0
-  MaxHandles = 2
-  MaxCtr = 1
+  MaxHandles = 3
+  MaxCtr = 4
 VIEW View
 CONSTRAINT Bound
 INVARIANTS NoViolation TypeOK AckSound QueueBound InitialCredit ExactlyOne TargetCarried BoundedRetry Released DoneResolved
